@@ -17,6 +17,29 @@ from checks import c05
 SPECDIR = c05.SPECDIR
 
 
+def forgetting(chk, rigbin):
+    """The bounded memory forgets: between a carrier's attachment and its
+    session's first packet 10240 (= clientIDAddrMapCapacity) other carriers
+    attach.  The specification allows any address then (don't care); the trace
+    must still be a behaviour (the lookup must fail exactly when the model's
+    window has lost the entry).  What RemoteAddr() returns is recorded as an
+    observation for the lead (notes/C18_rig.md)."""
+    sc = {"name": "c18-forget", "seed": chk.seed, "stale_ms": 60000, "sessions": [
+        {"up": 5000, "down": 5000, "carriers": [{"label": "", "ip": "192.0.2.7", "pres": "id", "flood": 10240}]}],
+        "origin": {"module": "ServerMux", "steps": [["S_SetAddr", [1]], ["10240 x S_SetAddr of other ids"], ["S_GetAddr", ["A"]]]}}
+    results, summary, out, races = corerig.run_rig(rigbin, [sc], par=1, timeout=300, tag="forget")
+    res = results["c18-forget"]
+    flood = [e for e in res["events"] if e["ev"] == "srv.flood"]
+    acc = [e for e in res["events"] if e["ev"] == "app.accept"]
+    if not flood or flood[0]["n"] < 10240 or not acc:
+        chk.fail("forgetting scenario did not reach 10240 attachments / an accept: %s %s" % (flood, acc))
+        return
+    c05.judge(chk, "C18", rigbin, [sc], results)
+    chk.cov["rig_forgotten_attachments"] = flood[0]["n"]
+    chk.cov["rig_forgotten_remoteaddr"] = acc[0]["addr"]
+    chk.note("forgetting: after %d later attachments RemoteAddr() of the accepted connection is %r" % (flood[0]["n"], acc[0]["addr"]))
+
+
 def run_rig_part(chk, args):
     q = chk.tier == "quick"
     rigbin = vlib.go_build("./cmd/corerig", "corerig", linkflag=True)
@@ -40,6 +63,8 @@ def run_rig_part(chk, args):
     if summary.get("orphans"):
         chk.violation("C18/orphan-hook-event", "hook events for unknown carriers/ClientIDs: %s" % summary["orphans"][:3], {"orphans": summary["orphans"][:20]})
     c05.judge(chk, "C18", rigbin, scenarios, results)
+    if not q:
+        forgetting(chk, rigbin)
     th.join()
     for cfg, r in mc_out:
         if cfg == "error":
@@ -76,5 +101,5 @@ def run_rig_part(chk, args):
         chk.fail("vacuous rig part: no session was established after carriers with different addresses")
     chk.assumptions += [
         "rig part: the expected address of each concrete client_ip string is the table SanitTable of spec/ServerMux (contract restricted to the strings the rig sends)",
-        "rig part: forgetting (more than 10240 later attachments before the session is established) is not provoked; the model allows any address then",
+        "rig part: when the memory has forgotten the ClientID (10240 later attachments before the session is established; provoked once in the thorough tier) the model allows any address",
     ]
